@@ -44,8 +44,12 @@ fn subprocess_result(mut args: Args) -> Result<i32> {
             let thread_pool = args.common_mut().activate_thread_pool()?;
             let linker = crate::Linker::new();
             let _outputs = linker.run(&args, &thread_pool)?;
+            #[cfg(feature = "verif_hooks")]
+            crate::verif_hooks::point("linked")?;
             crate::timing::finalise_perfetto_trace()?;
             inform_parent_done(&fds);
+            #[cfg(feature = "verif_hooks")]
+            crate::verif_hooks::point("informed")?;
             Ok(0)
         }
         -1 => {
